@@ -7,6 +7,7 @@ INVARIANTS
   C09_QerValuesAsSignalled
   C09_SessionQerSound
   C09_Up4PeakRatesAsSignalled
+  C09_Up4GateAndTrafficClass
 POSTCONDITION TraceAccepted
 ALIAS AliasC09
 CHECK_DEADLOCK FALSE
